@@ -3,6 +3,7 @@ CONSTANTS MaxEntries = 5
  MaxLenBits = 3
  Gen = FALSE
 INVARIANT OverIffKraft
+INVARIANT CarryChainAgrees
 INVARIANT PrefixFree
 INVARIANT RoundTrip
 INVARIANT FirstIsZero
